@@ -296,6 +296,12 @@ class P:
         """declaration statement (consumes the trailing ';'): returns ('decl', typetext, [(name, dims, init)])"""
         ty = []
         while self.is_type_start() or (ty and ty[-1] in ("struct", "enum")):
+            t0 = self.peek()
+            if t0[1] not in TYPEWORDS and not (ty and ty[-1] in ("struct", "enum")):
+                # a typedef-looking name (…_t) is a type only if a declarator follows; `const double old_t = …` declares old_t
+                nx = self.peek(1)
+                if not (nx[0] == "id" or nx == ("op", "*")):
+                    break
             ty.append(self.next()[1])
         out = []
         while True:
@@ -552,6 +558,7 @@ class Lin:
         return self.d.get(k, Fraction(0))
 
 
+SYMCELL = re.compile(r"^ode\.(C|y1)\[\d+\]$|^ode\.D\[\d+\]\[\d+\]$")     # extrapolation table cells of integrator_bs.c
 SYMFIELD = re.compile(r"\[\d+\]\.(x|y|z|vx|vy|vz|ax|ay|az)$")
 
 
@@ -1060,6 +1067,9 @@ def _uniform(vals, what):
     return vs[0]
 
 
+JANUS_SCALE_POS, JANUS_SCALE_VEL = Fraction(1, 10 ** 16), Fraction(3, 10 ** 16)
+
+
 def abstract(ops, family):
     """[(name, args)] -> [(kind, a, b)] with exact Fractions.
     kind 0 drift(a·dt; b = 1 when the centre-of-mass step accompanies the Kepler step),
@@ -1211,8 +1221,13 @@ def abstract(ops, family):
             out.append((K_FORCE, Fraction(0), Fraction(0)))   # both interaction routines evaluate the force themselves
             out.append((K_KICK, co(1, 1), co(2, 3)))
         elif name == "drift" and family == "janus":
+            # drift(r, dt, scale_pos, scale_vel): the grid scales must arrive in this order (they are configured distinct)
+            if [getattr(a_, "val", None) for a_ in args[2:4]] != [JANUS_SCALE_POS, JANUS_SCALE_VEL]:
+                raise ExtractError("janus drift is called with scales %s, expected (scale_pos, scale_vel)" % (args[2:4],))
             out.append((K_DRIFT, co(1, 1), Fraction(1)))
         elif name == "kick" and family == "janus":
+            if [getattr(a_, "val", None) for a_ in args[2:3]] != [JANUS_SCALE_VEL]:
+                raise ExtractError("janus kick is called with scale %s, expected scale_vel" % (args[2:3],))
             out.append((K_KICK, co(1, 1), Fraction(0)))
         else:
             raise ExtractError("unknown primitive %s in %s schedule" % (name, family))
@@ -1263,6 +1278,48 @@ def abstract_mercurius(ops):
             raise ExtractError("unknown primitive %s in mercurius schedule" % name)
     if pend_com is not None:
         raise ExtractError("centre-of-mass step without a Kepler step")
+    return out
+
+
+TRACE_IGNORED = {"reb_integrator_trace_inertial_to_dh", "reb_integrator_trace_dh_to_inertial", "reb_integrator_trace_pre_ts_check",
+                 "realloc", "malloc", "free"}
+
+
+def abstract_trace(ops, jump_noop):
+    """TRACE away from close encounters: kick - jump - Kepler(+centre of mass) - jump - kick; the interaction step evaluates the
+    force itself.  A rejected step shows up as `memcpy` (restore) between two attempts: marked by kind 5."""
+    out = []
+    for name, args in ops:
+        if name in TRACE_IGNORED:
+            continue
+
+        def co(j):
+            c = args[j]
+            if not isinstance(c, Coef) or (c.val != 0 and c.pow != 1):
+                raise ExtractError("%s: coefficient %r is not a tracked multiple of dt" % (name, c))
+            return c.val
+        if name in ("reb_simulation_warning", "reb_simulation_error"):
+            raise ExtractError("TRACE schedule raises: %s" % (args[1:],))
+        if name == "reb_integrator_trace_interaction_step":
+            out.append((K_FORCE, Fraction(0), Fraction(0)))
+            out.append((K_KICK, co(1), Fraction(0)))
+        elif name == "reb_integrator_trace_jump_step":
+            if not jump_noop:
+                out.append((K_JUMP, co(1), Fraction(0)))
+        elif name == "reb_integrator_trace_kepler_step":
+            out.append((K_DRIFT, co(1), Fraction(0)))
+        elif name == "reb_integrator_trace_com_step":
+            c = co(1)
+            if not out or out[-1] != (K_DRIFT, c, Fraction(0)):
+                raise ExtractError("centre-of-mass step %s does not pair with the preceding Kepler step" % c)
+            out[-1] = (K_DRIFT, c, Fraction(1))
+        elif name == "reb_integrator_trace_post_ts_check":
+            pass
+        elif name == "memcpy":
+            if str(args[0]).startswith("@r.particles"):       # restore of the backup after a rejected attempt
+                out.append((5, Fraction(0), Fraction(0)))
+        else:
+            raise ExtractError("unknown primitive %s in trace schedule" % name)
     return out
 
 
@@ -1417,6 +1474,25 @@ def _extract_all(repo, fam):
     for n in ("h", "rr", "c", "d", "w"):
         table(ias, n, "ias15_" + n)
 
+    # ---- IAS15: weights of the end-of-step update (x0 += b_j/W dt^2 ..., v0 += b_j/W dt ...)
+    fam[0] = "ias15"
+    D["ias15_update"] = {}
+    for tgt, cs, npow in (("x0", "csx", 2), ("v0", "csv", 1)):
+        ws = {}
+        pat = r"add_cs\(&\(%s\[k\]\),\s*&\(%s\[k\]\),\s*(b\.p(\d)|a0|v0)\[k\](?:/(\d+)\.)?((?:\*dt_done)+)\)" % (tgt, cs)
+        for m in re.finditer(pat, ias.text):
+            name = ("b%s" % m.group(2)) if m.group(2) is not None else m.group(1)
+            pw = m.group(4).count("dt_done")
+            if name in ws:
+                raise ExtractError("IAS15 update: %s added twice to %s" % (name, tgt))
+            ws[name] = (Fraction(1, int(m.group(3))) if m.group(3) else Fraction(1), pw)
+        need = ["b%d" % j for j in range(7)] + ["a0"] + (["v0"] if tgt == "x0" else [])
+        if sorted(ws) != sorted(need):
+            raise ExtractError("IAS15 update of %s: terms %s, expected %s" % (tgt, sorted(ws), sorted(need)))
+        for nm_, (w_, pw_) in ws.items():
+            if pw_ != (npow if nm_ != "v0" else 1):
+                raise ExtractError("IAS15 update of %s: term %s carries dt^%d" % (tgt, nm_, pw_))
+        D["ias15_update"][tgt] = [ws["a0"][0]] + [ws["b%d" % j][0] for j in range(7)]
     # ---- SABA
     fam[0] = "saba"
     D["enums"]["saba"] = sorted(((k, v) for k, v in enums.items() if k.startswith("REB_SABA_")), key=lambda kv: kv[1])
@@ -1515,7 +1591,7 @@ def _extract_all(repo, fam):
     fam[0] = "janus"
     D["janus"] = []
     jbase = {"r.N": 2, "r.t": Fraction(0), "r.ri_janus.N_allocated": 2, "r.ri_janus.recalculate_integer_coordinates_this_timestep": 0,
-             "r.ri_janus.scale_pos": Fraction(1, 10 ** 16), "r.ri_janus.scale_vel": Fraction(1, 10 ** 16), "r.ri_janus.p_int": Path("pint"),
+             "r.ri_janus.scale_pos": JANUS_SCALE_POS, "r.ri_janus.scale_vel": JANUS_SCALE_VEL, "r.ri_janus.p_int": Path("pint"),
              "r.particles": Path("r.particles")}
     orders = []
     for n in jschemes:
@@ -1550,6 +1626,71 @@ def _extract_all(repo, fam):
     m2 = dict(mbase); m2["r.ri_mercurius.is_synchronized"] = 0
     ops = [o for o in run_config([merc], enums, mstep, m2, MI) if o[0] != "reb_simulation_warning"]
     D["mercurius"]["safe_from_unsync"] = abstract_mercurius(ops)
+    # ---- TRACE (the splitting path: no pericentre flag, or PARTIAL_BS)
+    fam[0] = "trace"
+    trc = CFile(os.path.join(S, "integrator_trace.c"))
+    tbase = {"r.N": 2, "r.N_var_config": 0, "r.t": Fraction(0), "r.collision": enums["REB_COLLISION_NONE"], "r.gravity": enums["REB_GRAVITY_BASIC"],
+             "r.ri_trace.N_allocated": 2, "r.ri_trace.current_C": 0, "r.ri_trace.peri_mode": 0, "r.particles": Path("r.particles"),
+             "r.ri_trace.particles_backup": Path("bk"), "r.N_active": -1, "r.testparticle_type": 0}
+    TI = {"reb_integrator_trace_step"}
+    D["trace"] = {"peri_modes": sorted(((k, v) for k, v in enums.items() if k.startswith("REB_TRACE_PERI_")), key=lambda kv: kv[1]), "steps": []}
+
+    def trace_jump_noop(cc):
+        m = dict(tbase); m["r.ri_trace.current_C"] = cc
+        it = Interp([trc], m, set())
+        it.enums = enums
+        try:
+            it.run("reb_integrator_trace_jump_step", [Path("r"), Fraction(1)])
+            return len(it.ops) == 0
+        except ExtractError:
+            return False
+    D["trace"]["jump_noop"] = {cc: trace_jump_noop(cc) for cc in (0, 1)}
+    tstep = ["reb_integrator_trace_part1", "reb_integrator_trace_part2"]
+    for pname, pm in D["trace"]["peri_modes"]:
+        for cc in (0, 1):
+            if cc == 1 and pname != "REB_TRACE_PERI_PARTIAL_BS":
+                continue      # FULL_BS / FULL_IAS15 integrate the whole step with BS / IAS15 when the pericentre flag is set: not a splitting
+            for rej in (0, 1):
+                m = dict(tbase); m["r.ri_trace.peri_mode"] = pm
+                # the encounter checks are not interpreted: pre_ts_check leaves current_C as configured, post_ts_check reports `rej`
+                m["r.ri_trace.current_C"] = cc
+                ops = run_config([trc], enums, tstep, m, TI, {"reb_integrator_trace_post_ts_check": rej})
+                D["trace"]["steps"].append({"peri_mode": pm, "current_C": cc, "rejected_once": rej,
+                                            "step": abstract_trace(ops, D["trace"]["jump_noop"][cc])})
+    # ---- BS: substep sequence, extrapolation abscissae, and the linear map of `extrapolate`
+    fam[0] = "bs"
+    bs = CFile(os.path.join(S, "integrator_bs.c"))
+    it = Interp([bs], {}, set())
+    it.enums = enums
+    it.run("allocate_sequence_arrays", [Path("ri_bs")])
+    L = it.global_value("sequence_length")
+    seq = [it.mem.get("ri_bs.sequence[%d]" % k) for k in range(L)]
+    coe = [it.mem.get("ri_bs.coeff[%d]" % k) for k in range(L)]
+    if any(not isinstance(v, int) for v in seq) or any(not isnum(v) for v in coe):
+        raise ExtractError("substep sequence / coefficients not found: %s %s" % (seq, coe))
+    D["bs"] = {"sequence_length": L, "sequence": seq, "coeff": [Fraction(c) for c in coe], "extrapolate": []}
+    for k in range(1, L):
+        # as reb_integrator_bs_step calls it: C = D[k] = T_k (the new modified-midpoint result), D[0..k-1] from the previous rows
+        mem = {"ode.length": 1}
+        for j in range(k):
+            mem["ode.D[%d][0]" % j] = Lin({"d%d" % j: 1})
+        mem["ode.D[%d][0]" % k] = Lin({"T": 1})
+        mem["ode.C[0]"] = Lin({"T": 1})
+        mem["ode.y1[0]"] = Lin({"T": 1})
+        it = Interp([bs], mem, set())
+        it.enums = enums
+        it.run("extrapolate", [Path("ode"), [Fraction(c) for c in coe], k])
+        if it.ops:
+            raise ExtractError("extrapolate calls %s" % it.ops[:2])
+        names = ["d%d" % j for j in range(k)] + ["T"]
+
+        def row(v):
+            v = Lin.lift(v)
+            if v.c != 0 or set(v.d) - set(names):
+                raise ExtractError("extrapolate: result is not linear in the table: %s" % v.d)
+            return [v.coeff(nm) for nm in names]
+        D["bs"]["extrapolate"].append({"k": k, "y1": row(it.mem["ode.y1[0]"]), "C": row(it.mem["ode.C[0]"]),
+                                       "D": [row(it.mem["ode.D[%d][0]" % j]) for j in range(k + 1)]})
     # ---- LEAPFROG
     fam[0] = "leapfrog"
     lbase = {"r.N": 1, "r.t": Fraction(0), "r.particles": Path("r.particles")}
@@ -1737,6 +1878,9 @@ def emit_lean(D):
     s = HEADER % "src/integrator_ias15.c"
     for n in ("h", "rr", "c", "d", "w"):
         s += "def ias%s : List Rat := %s\n" % (n.upper(), llist(T["ias15_" + n]["value"]))
+    s += "/-- end-of-step update: x0 += dt²·(w₀·a0 + Σ w_{j+1}·b_j) + dt·v0, v0 += dt·(w₀·a0 + Σ w_{j+1}·b_j): the weights w -/\n"
+    s += "def iasPosW : List Rat := %s\n" % llist(D["ias15_update"]["x0"])
+    s += "def iasVelW : List Rat := %s\n" % llist(D["ias15_update"]["v0"])
     s += "def iasCounts : List (String × Nat) := [" + ", ".join('("%s", %d)' % (n, T["ias15_" + n]["explicit"]) for n in ("h", "rr", "c", "d", "w")) + "]\n"
     s += "end RV.C01.Gen\n"
     out["C01Ias15.lean"] = s
@@ -1755,6 +1899,33 @@ def emit_lean(D):
     s += "def mercCounts : List (String × Nat) := [(\"schedules\", %d)]\n" % len(D["mercurius"])
     s += "end RV.C01.Gen\n"
     out["C01Mercurius.lean"] = s
+
+    # ---------------- TRACE
+    s = HEADER % "src/integrator_trace.c (part1, part2, reb_integrator_trace_step; encounter checks not interpreted)"
+    TR = D["trace"]
+    s += "def tracePeriModes : List (String × Nat) := [" + ", ".join('("%s", %d)' % kv for kv in TR["peri_modes"]) + "]\n"
+    s += "/-- pericentre flag current_C ↦ reb_integrator_trace_jump_step does nothing -/\n"
+    s += "def traceJumpNoop : List (Nat × Bool) := [" + ", ".join("(%d, %s)" % (k, "true" if v else "false") for k, v in sorted(TR["jump_noop"].items())) + "]\n"
+    for e in TR["steps"]:
+        s += "def traceStep_%d_%d_%d : List Op :=\n  %s\n" % (e["peri_mode"], e["current_C"], e["rejected_once"], lops(e["step"]))
+    s += "/-- (peri_mode, current_C, first attempt rejected by post_ts_check) ↦ operators of one step; kind 5 = restore of the backup -/\n"
+    s += "def traceStep : List ((Nat × Nat × Nat) × List Op) := [" + ", ".join(
+        "((%d, %d, %d), traceStep_%d_%d_%d)" % ((e["peri_mode"], e["current_C"], e["rejected_once"]) * 2) for e in TR["steps"]) + "]\n"
+    s += "end RV.C01.Gen\n"
+    out["C01Trace.lean"] = s
+
+    # ---------------- BS
+    s = HEADER % "src/integrator_bs.c (allocate_sequence_arrays, extrapolate)"
+    B = D["bs"]
+    s += "def bsSequenceLength : Nat := %d\n" % B["sequence_length"]
+    s += "/-- ri_bs->sequence[k]: number of modified-midpoint substeps of row k -/\ndef bsSequence : List Nat := [%s]\n" % ", ".join(str(x) for x in B["sequence"])
+    s += "/-- ri_bs->coeff[k]: abscissae of the extrapolation -/\ndef bsCoeffs : List Rat := %s\n" % llist(B["coeff"])
+    s += "/-- k ↦ the linear map of `extrapolate(ode, coeff, k)` as executed from the source text on a symbolic table: inputs\n"
+    s += "    (D[0], …, D[k-1], T) with C = D[k] = T on entry; rows: y1, C, D[0], …, D[k] on exit -/\n"
+    s += "def bsExtrapolate : List (Nat × List (List Rat)) := [\n  " + ",\n  ".join(
+        "(%d, [%s])" % (e["k"], ", ".join(llist(r) for r in [e["y1"], e["C"]] + e["D"])) for e in B["extrapolate"]) + "]\n"
+    s += "end RV.C01.Gen\n"
+    out["C01Bs.lean"] = s
 
     # ---------------- LEAPFROG
     s = HEADER % "src/integrator_leapfrog.c"
